@@ -39,7 +39,10 @@ pub fn day_hash(day: i64, salt: u64) -> u64 {
 }
 
 pub fn tods_for(day: i64) -> [i128; 3] {
-    [0, NS_D - 1, (day_hash(day, 1) as i128) % NS_D]
+    // third class: a hashed time of day, on every other day one in which only some of the fields
+    // h / min / s / ms / us / ns are non-zero
+    let h = day_hash(day, 1);
+    [0, NS_D - 1, if day_hash(day, 3) % 2 == 0 { crate::gen::tod_masked(1 + (day_hash(day, 4) % 63) as u8, h) } else { (h as i128) % NS_D }]
 }
 
 /// The enumeration shared by C08, C09, C16, C19: calls f(day1900, scale index, time of day, full) for the
@@ -274,45 +277,109 @@ fn reject_strategy() -> BS<Reject> {
         .boxed()
 }
 
+/// one way of building an epoch from the fields: the fields it actually receives, and the epoch it returned (None: Err or panic)
+struct Route {
+    name: &'static str,
+    eff: Reject,
+    got: Option<Epoch>,
+}
+
+/// every constructor of the family applied to the case: the three `maybe_*` forms and the panicking wrappers
+/// ("If invalid date is provided, this function will panic"), each with the subset of the fields it takes
+fn routes(c: &Reject) -> Vec<Route> {
+    let ts = SCALES[c.s];
+    let (y, m, d, hh, mm, ss, ns) = (c.y, c.m, c.d, c.hh, c.mm, c.ss, c.ns);
+    let with = |hh: u8, mm: u8, ss: u8, ns: u32| Reject { hh, mm, ss, ns, ..c.clone() };
+    let run = |f: &(dyn Fn() -> Option<Epoch> + std::panic::RefUnwindSafe)| guard(|| f()).ok().flatten();
+    let mut v = vec![
+        Route { name: "maybe_from_gregorian", eff: c.clone(), got: run(&move || Epoch::maybe_from_gregorian(y, m, d, hh, mm, ss, ns, ts).ok()) },
+        Route { name: "from_gregorian", eff: c.clone(), got: run(&move || Some(Epoch::from_gregorian(y, m, d, hh, mm, ss, ns, ts))) },
+        Route { name: "from_gregorian_hms", eff: with(hh, mm, ss, 0), got: run(&move || Some(Epoch::from_gregorian_hms(y, m, d, hh, mm, ss, ts))) },
+        Route { name: "from_gregorian_at_midnight", eff: with(0, 0, 0, 0), got: run(&move || Some(Epoch::from_gregorian_at_midnight(y, m, d, ts))) },
+        Route { name: "from_gregorian_at_noon", eff: with(12, 0, 0, 0), got: run(&move || Some(Epoch::from_gregorian_at_noon(y, m, d, ts))) },
+    ];
+    // the text route, when the fields can be written as YYYY-MM-DDTHH:MM:SS.fffffffff
+    if (0..=9999).contains(&y) && m <= 99 && d <= 99 && hh <= 99 && mm <= 99 && ss <= 99 && ns <= 999_999_999 {
+        let txt = format!("{:04}-{:02}-{:02}T{:02}:{:02}:{:02}.{:09} {}", y, m, d, hh, mm, ss, ns, SCALE_NAMES[c.s]);
+        v.push(Route { name: "from_gregorian_str", eff: c.clone(), got: run(&move || Epoch::from_gregorian_str(&txt).ok()) });
+    }
+    if ts == TimeScale::UTC {
+        v.push(Route { name: "maybe_from_gregorian_utc", eff: c.clone(), got: run(&move || Epoch::maybe_from_gregorian_utc(y, m, d, hh, mm, ss, ns).ok()) });
+        v.push(Route { name: "from_gregorian_utc", eff: c.clone(), got: run(&move || Some(Epoch::from_gregorian_utc(y, m, d, hh, mm, ss, ns))) });
+        v.push(Route { name: "from_gregorian_utc_hms", eff: with(hh, mm, ss, 0), got: run(&move || Some(Epoch::from_gregorian_utc_hms(y, m, d, hh, mm, ss))) });
+        v.push(Route { name: "from_gregorian_utc_at_midnight", eff: with(0, 0, 0, 0), got: run(&move || Some(Epoch::from_gregorian_utc_at_midnight(y, m, d))) });
+        v.push(Route { name: "from_gregorian_utc_at_noon", eff: with(12, 0, 0, 0), got: run(&move || Some(Epoch::from_gregorian_utc_at_noon(y, m, d))) });
+    }
+    if ts == TimeScale::TAI {
+        v.push(Route { name: "maybe_from_gregorian_tai", eff: c.clone(), got: run(&move || Epoch::maybe_from_gregorian_tai(y, m, d, hh, mm, ss, ns).ok()) });
+        v.push(Route { name: "from_gregorian_tai", eff: c.clone(), got: run(&move || Some(Epoch::from_gregorian_tai(y, m, d, hh, mm, ss, ns))) });
+        v.push(Route { name: "from_gregorian_tai_hms", eff: with(hh, mm, ss, 0), got: run(&move || Some(Epoch::from_gregorian_tai_hms(y, m, d, hh, mm, ss))) });
+        v.push(Route { name: "from_gregorian_tai_at_midnight", eff: with(0, 0, 0, 0), got: run(&move || Some(Epoch::from_gregorian_tai_at_midnight(y, m, d))) });
+        v.push(Route { name: "from_gregorian_tai_at_noon", eff: with(12, 0, 0, 0), got: run(&move || Some(Epoch::from_gregorian_tai_at_noon(y, m, d))) });
+    }
+    v
+}
+
 fn reject_known(c: &Reject) -> Option<&'static str> {
     if !(c.m == 2 && is_leap(c.y as i64) && (c.d == 30 || c.d == 31)) {
         return None;
     }
-    // the day must be the only invalid field ...
+    // every route that wrongly returns a value must do so in exactly the way the finding predicts: the day is the
+    // only invalid field among those the route receives, and the value is the same time on 1 / 2 March
+    let ts = SCALES[c.s];
+    for r in routes(c) {
+        if statement_invalid(&r.eff) != Some(true) {
+            continue;
+        }
+        if let Some(e) = r.got {
+            let mut other = r.eff.clone();
+            other.d = 29;
+            if statement_invalid(&other) == Some(true) {
+                return None;
+            }
+            let f = r.eff.clone();
+            match guard(move || Epoch::maybe_from_gregorian(f.y, 3, f.d - 29, f.hh, f.mm, f.ss, f.ns, ts)) {
+                Ok(Ok(b)) if e.duration.to_parts() == b.duration.to_parts() && e.time_scale == b.time_scale => {}
+                _ => return None,
+            }
+        }
+    }
+    // is_gregorian_valid takes all the fields
     let mut other = c.clone();
     other.d = 29;
-    if statement_invalid(&other) == Some(true) {
+    let cc = c.clone();
+    if matches!(guard(move || is_gregorian_valid(cc.y, cc.m, cc.d, cc.hh, cc.mm, cc.ss, cc.ns)), Ok(true)) && statement_invalid(&other) == Some(true) {
         return None;
     }
-    // ... and the accepted value must be what the finding predicts: the same time on 1 / 2 March
-    let ts = SCALES[c.s];
-    let c = c.clone();
-    match guard(move || (Epoch::maybe_from_gregorian(c.y, c.m, c.d, c.hh, c.mm, c.ss, c.ns, ts), Epoch::maybe_from_gregorian(c.y, 3, c.d - 29, c.hh, c.mm, c.ss, c.ns, ts))) {
-        Ok((Ok(a), Ok(b))) if a.duration.to_parts() == b.duration.to_parts() && a.time_scale == b.time_scale => Some("KF-feb30-leap-year"),
-        _ => None,
-    }
+    Some("KF-feb30-leap-year")
 }
 
 fn reject_oracle(c: &Reject) -> Verdict {
-    let ts = SCALES[c.s];
     let desc = format!("{}-{:02}-{:02}T{:02}:{:02}:{:02}.{:09} {}", c.y, c.m, c.d, c.hh, c.mm, c.ss, c.ns, SCALE_NAMES[c.s]);
-    let r = lib!(Epoch::maybe_from_gregorian(c.y, c.m, c.d, c.hh, c.mm, c.ss, c.ns, ts));
     let v = lib!(is_gregorian_valid(c.y, c.m, c.d, c.hh, c.mm, c.ss, c.ns));
     match statement_invalid(c) {
         Some(true) => {
-            ensure!(r.is_err(), "invalid date-time {} accepted as {:?}", desc, r.map(|e| format!("{e}")));
             ensure!(!v, "is_gregorian_valid true for invalid {}", desc);
-            if ts == TimeScale::UTC {
-                ensure!(lib!(Epoch::maybe_from_gregorian_utc(c.y, c.m, c.d, c.hh, c.mm, c.ss, c.ns)).is_err(), "maybe_from_gregorian_utc accepts {}", desc);
-            }
-            if ts == TimeScale::TAI {
-                ensure!(lib!(Epoch::maybe_from_gregorian_tai(c.y, c.m, c.d, c.hh, c.mm, c.ss, c.ns)).is_err(), "maybe_from_gregorian_tai accepts {}", desc);
+            // "returns an error, never a shifted date": no route may return a value for fields that are invalid
+            for r in routes(c) {
+                if statement_invalid(&r.eff) == Some(true) {
+                    ensure!(r.got.is_none(), "{} returns {} for the invalid date-time {} (fields it receives: {:?})", r.name, r.got.map(|e| format!("{e}")).unwrap_or_default(), desc, (r.eff.y, r.eff.m, r.eff.d, r.eff.hh, r.eff.mm, r.eff.ss, r.eff.ns));
+                }
             }
             let class = if c.ss == 60 { "reject-second-60" } else if c.m == 2 { "reject-february" } else { "reject" };
             Verdict::Pass(class, true)
         }
         Some(false) => {
+            let ts = SCALES[c.s];
+            let r = lib!(Epoch::maybe_from_gregorian(c.y, c.m, c.d, c.hh, c.mm, c.ss, c.ns, ts));
             ensure!(r.is_ok() && v, "valid date-time {} rejected", desc);
+            // every route accepts it and builds the same epoch
+            let want = r.unwrap();
+            for rt in routes(c) {
+                if rt.eff.hh == c.hh && rt.eff.mm == c.mm && rt.eff.ss == c.ss && rt.eff.ns == c.ns {
+                    ensure!(matches!(rt.got, Some(e) if e.duration.to_parts() == want.duration.to_parts() && e.time_scale == want.time_scale), "{} gives {:?} for the valid date-time {}, maybe_from_gregorian gives {}", rt.name, rt.got.map(|e| format!("{e}")), desc, want);
+                }
+            }
             Verdict::Pass("valid-after-mutation", true)
         }
         None => Verdict::Skip("statement leaves hour 24 / ns 1e9 / 1971-12-31T23:59:60 open"),
